@@ -237,7 +237,7 @@ package saml
 //@ requires el: encryptedEl != nil
 //@ requires[cfg] key: spKeyOK(sp.Key)
 //@ -- decrypted plaintext is parsed only after the round-trip validator accepted exactly those bytes
-//@ assert@call[C01,C08] ReadFromBytes #each (doc *etree.Document, b []byte) plaintext_validated: RoundTripSafe(b)
+//@ assert@call[C01,C08] ReadFromBytes #0 (doc *etree.Document, b []byte) plaintext_validated: RoundTripSafe(b)
 //@ ensures[C09] nonnil: err == nil ==> result != nil
 
 //@ contract (*ServiceProvider).parseEncryptedAssertion
@@ -377,7 +377,7 @@ package saml
 //@ -- (two requests would then share, and overwrite, each other's identifiers)
 //@ assert@return[C12,C06] #each (out []byte) own_memory: allocatedHereBytes(out)
 //@ ensures[C12] length: len(result) == n
-//@ assert@call[C12] io.ReadFull #each (r io.Reader, buf []byte) uses rv []byte fills_all_from_configured_source:
+//@ assert@call[C12] io.ReadFull #0 (r io.Reader, buf []byte) uses rv []byte fills_all_from_configured_source:
 //@    r == RandReader && sameBytes(buf, rv) && len(buf) == n
 
 //@ contract elementToBytes
@@ -774,14 +774,14 @@ package saml
 //@ requires[cfg] a: req.Assertion != nil && req.SPSSODescriptor != nil && req.ACSEndpoint != nil && req.ServiceProviderMetadata != nil
 //@ requires[cfg] chain: forall(0, len(req.IDP.Intermediates), func(k int) bool { return req.IDP.Intermediates[k] != nil })
 //@ -- C14: the form is rendered by html/template with the peer-controlled strings as data
-//@ assert@call[C14,C06] Execute #each (t *template.Template, out io.Writer, data interface{}) html_template_with_form_data:
+//@ assert@call[C14,C06] Execute #0 (t *template.Template, out io.Writer, data interface{}) html_template_with_form_data:
 //@    t != nil && (t == req.IDP.ResponseFormTemplate || (req.IDP.ResponseFormTemplate == nil && t == defaultResponseFormTemplate)) && isForm(data)
 //@ go func isForm(d interface{}) bool { _, ok := d.(IdpAuthnRequestForm); return ok }
 //@ -- C19 (each request receives exactly one well-formed reply): the template is executed into a buffer of this call, and the
 //@ -- response writer sees the form only once rendering has succeeded - a template that fails half-way must not have sent
 //@ -- the first half (with the signed response in it) ahead of the caller's 500
 //@ go func intoOwnBuffer(out io.Writer) bool { b, ok := out.(*bytes.Buffer); return ok && allocatedHere(b) }
-//@ assert@call[C19,C14] Execute #each (t *template.Template, out io.Writer, data interface{}) rendered_before_it_is_sent: intoOwnBuffer(out)
+//@ assert@call[C19,C14] Execute #0 (t *template.Template, out io.Writer, data interface{}) rendered_before_it_is_sent: intoOwnBuffer(out)
 
 //@ go func idpConfigured(idp *IdentityProvider) bool {
 //@    return idp.Certificate != nil && idp.ServiceProviderProvider != nil && idp.SessionProvider != nil && idp.Logger != nil &&
@@ -948,15 +948,15 @@ package saml
 //@ -- pool, a package variable or another request still holds and will write to (engine builtin, see DESIGN.md 2.3)
 //@ ghost func allocatedHere(b *bytes.Buffer) bool
 //@ contract (*AuthnRequest).Post
-//@ assert@call[C12,C14] (*html/template.Template).Execute #each (t *template.Template, out io.Writer, data interface{}) form_data:
+//@ assert@call[C12,C14] (*html/template.Template).Execute #0 (t *template.Template, out io.Writer, data interface{}) form_data:
 //@    isRequestPostData(data) && postDataURL(data) == r.Destination && postDataRelay(data) == relayState
 //@ assert@call[C12,C14] (*bytes.Buffer).Bytes #each (b *bytes.Buffer) form_is_the_callers_own: allocatedHere(b)
 //@ contract (*LogoutRequest).Post
-//@ assert@call[C12,C14] (*html/template.Template).Execute #each (t *template.Template, out io.Writer, data interface{}) form_data:
+//@ assert@call[C12,C14] (*html/template.Template).Execute #0 (t *template.Template, out io.Writer, data interface{}) form_data:
 //@    isRequestPostData(data) && postDataURL(data) == r.Destination && postDataRelay(data) == relayState
 //@ assert@call[C12,C14] (*bytes.Buffer).Bytes #each (b *bytes.Buffer) form_is_the_callers_own: allocatedHere(b)
 //@ contract (*LogoutResponse).Post
-//@ assert@call[C12,C14] (*html/template.Template).Execute #each (t *template.Template, out io.Writer, data interface{}) form_data:
+//@ assert@call[C12,C14] (*html/template.Template).Execute #0 (t *template.Template, out io.Writer, data interface{}) form_data:
 //@    isResponsePostData(data) && responsePostURL(data) == r.Destination && responsePostRelay(data) == relayState
 //@ assert@call[C12,C14] (*bytes.Buffer).Bytes #each (b *bytes.Buffer) form_is_the_callers_own: allocatedHere(b)
 
